@@ -66,7 +66,9 @@ ASSUMPTIONS = [
     "CommaList/RouterList one comma-joined line, 'Name=' when empty or bare when unset (a NULL RouterList; "
     "control-spec allows the bare form for any option at its default), in which case the default is one "
     "config/defaults line of comma-joined items; the other types are never bare",
-    "config/defaults lines are 'Name value' as in control-spec DefaultsOutput and the repo's fixtures (unquoted)",
+"config/defaults lines are 'Name value' as in control-spec DefaultsOutput and the repo's fixtures (unquoted); a "
+    "LineList may have 2-3 default lines of which the first or a middle one has an empty value ('Name '): every line "
+    "counts, the unset option reads as the full list; such a list is read and compared but not edited/saved",
     "an empty CommaList/RouterList may read as [] or ['']",
     "a scalar option Tor reports unset for which no default is known may read as None, '' or the documented "
     "marker 'DEFAULT'",
@@ -828,6 +830,10 @@ class _Run(object):
             self.res.excluded.append("append-to-blank-shaped-empty-comma-list")
             return None
         before = [str(x) for x in lst]
+        if "" in before:
+            # a default entry with an empty value: on the wire 'Key=' means "clear", so what saving this list means is open
+            self.res.excluded.append("edit-of-a-list-holding-an-empty-entry")
+            return None
         if m.pend is not None and before != m.pend["vals"]:
             self.res.excluded.append("edit-of-a-read-that-does-not-show-the-pending-list")
             return None
@@ -893,7 +899,7 @@ class _Run(object):
             self.res.excluded.append("append-to-blank-shaped-empty-comma-list")
             return
         vals = [str(x) for x in lst]
-        if not vals:
+        if not vals or "" in vals:
             self.res.excluded.append("assign-from-an-empty-list")       # emptied lists are C10's known finding
             return
         nm = cm.mangle(b.name, s.get("case", 0))
@@ -1132,6 +1138,13 @@ def _fixed_cases():
                              ev(("Nickname", ["theirs"])), rd("Nickname"), ev(("Nickname", None)), rd("Nickname"),
                              {"op": "edit", "o": "NodeFamily", "v": "a,b", "case": 0}, {"op": "save", "accept": False},
                              ev(("NodeFamily", ["c,d", "e,f"])), rd("NodeFamily"), {"op": "save", "accept": True}])
+    # config/defaults entries with an empty value: every default line counts, at attach and after a zero-value event
+    t8 = [O("NodeFamily", "LineList", default=["", "$AAAA,$BBBB"]), O("Log", "LineList", value=["a"], default=["x", "", "y"]),
+          O("MapAddress", "LineList", default=["", "a b", "c d"]), O("Nickname", "String", value=["n"])]
+    for att in (None, [pre("NodeFamily", 1, ["zzz"])]):
+        yield dict(base, opts=t8, attach=att, steps=[rd("NodeFamily"), ev(("Log", None)), rd("Log"),
+                                                     ev(("MapAddress", ["q r"])), ev(("MapAddress", None), ("Nickname", None)),
+                                                     rd("MapAddress"), {"op": "edit_save", "o": "Log", "v": "b", "case": 0}])
     # B = the list read from A (same type): independent afterwards
     t7 = [O("ExcludeNodes", "RouterList", value=["bad1,bad2"]), O("ExitNodes", "RouterList", value=["bad1,bad2"]),
           O("LongLivedPorts", "CommaList", value=["21,22"]), O("FirewallPorts", "CommaList", value=["80"]),
@@ -1209,6 +1222,9 @@ def run(ctx):
 
 
 MUTANTS = [
+    ("first-empty-default-line-dropped", "txtorcon/torconfig.py",
+     "                if k in defaults:\n                    if isinstance(defaults[k], list):",
+     "                if defaults.get(k):\n                    if isinstance(defaults[k], list):"),
     ("assigned-tracked-list-not-copied", "txtorcon/torconfig.py",
      "            if isinstance(value, list):\n                value = _ListWrapper(\n                    value, functools.partial(self.mark_unsaved, name))",
      "            if isinstance(value, list) and not isinstance(value, _ListWrapper):\n                value = _ListWrapper(\n"
